@@ -19,6 +19,16 @@ def tlc_ok(ctx, module, cfg, what=None, **kw):
     return r
 
 
+def zero_coverage(r):
+    """Actions that generated no state at all, judged by the LAST coverage report of the run
+    (interim reports of -coverage may still show 0:0 for an action that fires later)."""
+    import re
+    last = {}
+    for name, where, _distinct, gen in re.findall(r"^<(\w+) line ([^>]*)>: (\d+):(\d+)$", r.log, re.M):
+        last[(name, where)] = int(gen)
+    return sorted("%s (%s)" % k for k, g in last.items() if g == 0)
+
+
 def concat(ctx, name, paths):
     out = ctx.path(name)
     with open(out, "w") as o:
